@@ -1,35 +1,65 @@
 import CollectionsC.Proofs.HashTableLedger
 /-! Ledger facts for the hash set (C06/C08/C14): every set operation forwards to the table, so the
-C-library counter, the refusal counter and the dependence on the schedule are the table's. -/
+counters it leaves untouched, the refusal counter and the dependence on the schedule are the table's. -/
 set_option maxHeartbeats 1600000
 namespace CC.HashSet
 open CC CC.HT CC.Spec
 open CC.Spec.Set (Op)
 
-theorem new_libc (c : HCfg) (cap : Nat) (m : Mem) : (HashSet.new c cap m).2.2.libc = m.libc := by
+/-- the header and the wrapped table go through the same triple -/
+theorem new_other (c : HCfg) (cap : Nat) (tr : Triple) (m : Mem) : otherOf tr (HashSet.new c cap tr m).2.2 = otherOf tr m := by
   unfold HashSet.new; simp only
   split
   · simp
-  · cases (HashTable.new c cap m.alloc.2).2.1 <;> simp [HashTable.new_libc]
+  · cases (HashTable.new c cap tr (m.allocT tr).2).2.1 <;> simp [HashTable.new_other]
 
-theorem destroy_libc (s : HashSet) (m : Mem) : (s.destroy m).libc = m.libc := by
-  simp [destroy, HashTable.destroy_libc]
+theorem destroy_other (s : HashSet) (m : Mem) (h : s.table.triple = s.triple) :
+    otherOf s.triple (s.destroy m) = otherOf s.triple m := by
+  have := HashTable.destroy_other s.table m
+  rw [h] at this
+  simp [destroy, this]
 
-theorem step_libc (c : HCfg) (s : HashSet) (op : Op) (m : Mem) : (s.step c op m).2.2.libc = m.libc := by
+theorem step_triple (c : HCfg) (s : HashSet) (op : Op) (m : Mem) :
+    (s.step c op m).2.1.triple = s.triple ∧ (s.step c op m).2.1.table.triple = s.table.triple := by
   cases op with
-  | add e => exact HashTable.add_libc c s.table e dummy m
-  | contains e => simp only [step, contains, HashTable.containsKey]; exact HashTable.get_libc c s.table e m
-  | remove e => exact HashTable.remove_libc c s.table e m
-  | removeAll => simp only [step]; rw [removeAll_eq]; exact HashTable.removeAll_libc s.table m
+  | add e => exact ⟨rfl, HashTable.add_triple c s.table e dummy m⟩
+  | contains e => exact ⟨rfl, rfl⟩
+  | remove e => exact ⟨rfl, HashTable.remove_triple c s.table e m⟩
+  | removeAll => simp only [step]; rw [removeAll_eq]; exact ⟨rfl, HashTable.removeAll_triple s.table m⟩
 
-theorem run_libc (c : HCfg) (ops : List Op) (s : HashSet) (m : Mem) : (s.run c ops m).2.2.2.libc = m.libc := by
+theorem step_other (c : HCfg) (s : HashSet) (op : Op) (m : Mem) :
+    otherOf s.table.triple (s.step c op m).2.2 = otherOf s.table.triple m := by
+  cases op with
+  | add e => exact HashTable.add_other c s.table e dummy m
+  | contains e => simp only [step, contains, HashTable.containsKey]; rw [HashTable.get_mem]; simp
+  | remove e => exact HashTable.remove_other c s.table e m
+  | removeAll => simp only [step]; rw [removeAll_eq]; exact HashTable.removeAll_other s.table m
+
+theorem run_triple (c : HCfg) (ops : List Op) (s : HashSet) (m : Mem) :
+    (s.run c ops m).2.2.1.triple = s.triple ∧ (s.run c ops m).2.2.1.table.triple = s.table.triple := by
+  induction ops generalizing s m with
+  | nil => exact ⟨rfl, rfl⟩
+  | cons op ops ih =>
+    simp only [run]
+    obtain ⟨i1, i2⟩ := ih (s.step c op m).2.1 (s.step c op m).2.2
+    obtain ⟨s1, s2⟩ := step_triple c s op m
+    exact ⟨by rw [i1, s1], by rw [i2, s2]⟩
+
+theorem run_other (c : HCfg) (ops : List Op) (s : HashSet) (m : Mem) :
+    otherOf s.table.triple (s.run c ops m).2.2.2 = otherOf s.table.triple m := by
   induction ops generalizing s m with
   | nil => rfl
-  | cons op ops ih => simp only [run]; rw [ih, step_libc]
+  | cons op ops ih =>
+    simp only [run]
+    have := ih (s.step c op m).2.1 (s.step c op m).2.2
+    rw [(step_triple c s op m).2] at this
+    rw [this, step_other]
 
-theorem iter_libc (c : HCfg) (s : HashSet) (it : HIter) (m : Mem) :
-    (s.iterInit m).2.libc = m.libc ∧ (s.iterNext it m).2.2.2.libc = m.libc ∧ (s.iterRemove c it m).2.2.2.libc = m.libc :=
-  ⟨(HashTable.iter_libc s.table it m).1, (HashTable.iter_libc s.table it m).2, HashTable.iterRemove_libc c s.table it m⟩
+theorem iter_other (c : HCfg) (s : HashSet) (it : HIter) (m : Mem) :
+    otherOf s.table.triple (s.iterInit m).2 = otherOf s.table.triple m ∧
+    otherOf s.table.triple (s.iterNext it m).2.2.2 = otherOf s.table.triple m ∧
+    otherOf s.table.triple (s.iterRemove c it m).2.2.2.2 = otherOf s.table.triple m :=
+  ⟨(HashTable.iter_other _ s.table it m).1, (HashTable.iter_other _ s.table it m).2, HashTable.iterRemove_other c s.table it m⟩
 
 theorem step_nrefused (c : HCfg) (s : HashSet) (op : Op) (m : Mem) :
     ((s.step c op m).1.st = some .errAlloc ∧ (s.step c op m).2.2.nrefused = m.nrefused + 1) ∨
